@@ -22,6 +22,8 @@
 //                      exactly once and nothing else is.  Proved through: permutation-invariance of the column counts
 //                      (lemma_cnt_perm), consolidation of a sorted column (lemma_dedup_fold), stable sort keeps the order of the
 //                      triplets of one cell (lemma_fold_match)
+//   From<rows>         STATEMENT SLICE `colptr.push(0);` .. the `for c in 0..n` nest, as fn from_rows_fill(rows, m, n, colptr,
+//                      rowval, nzval): the three vectors form a canonical matrix with dense(A, r, c) == rows[r][c], zeros not stored
 //   findnz             I = rowval, V = nzval, J[k] = the column whose pointer range contains k
 //   zeros, identity    canonical; every cell None / cell (c, c) = Some(one), others None
 //   utils.rs invperm   p in range and without repeats => no assert fires, result[p[i]] == i
@@ -29,7 +31,9 @@
 //
 // DROPPED (statement slice): the prefix of new_from_triplets — the two length assert_eq!, spalloc, the identity fill of the
 //   work array, sortperm_by with the capturing comparator J[a].cmp(&J[b]).then(I[a].cmp(&I[b])), the two permute calls — and the
-//   final `M`.  What it establishes is the slice's `requires` (sorted_input): M.rowval = I o p, M.nzval = V o p for a permutation
+//   final `M`; of From<rows> the collection of the rows into Vec<Vec<T>> (map / collect closures), m, n, the assert! that all rows
+//   have length n, the nnz count, the three with_capacity allocations and the final struct literal (its `requires`: rows.len() == m,
+//   every row of length n, three empty vectors).  What the prefix of new_from_triplets establishes is the slice's `requires` (sorted_input): M.rowval = I o p, M.nzval = V o p for a permutation
 //   p (inverse q) that is a STABLE sort by (column, row); M.colptr = [0, .., 0, len]; lengths equal.  witness_sorted_input shows
 //   the statement is satisfiable.  qdldl::permute (x[i] = b[p[i]]) is under contract in unit qdldl_kernels.
 //
